@@ -252,3 +252,7 @@ EQUIVALENT = {
                                'moment of the same file (before a pack, before later commits) produces one',
 }
 MUTANTS = [m for m in MUTANTS if m[1] not in EQUIVALENT]
+MUTANTS += [
+ ('C08', 'T-copyrest-releases-lock-only-at-end', 'FileStorage/fspack.py', None, None),
+]
+MUTANTS = [m for m in MUTANTS if m[3] is not None and m[1] not in EQUIVALENT]
